@@ -247,8 +247,10 @@ func K8() *Entry {
 		F("TagDash", JSON("-")), F("TagEmpty", JSON("")), F("TagDashOmit", JSON("-,omitempty")),
 		F("ID", JSON("id")), F("AWSRoleARNs", Rep()), F("DurMP", Sc(ir.Int64)), F("Overridden", JSON("tag_loses")),
 		F("ByTypeKey"), F("Child", MsgT("NamedChild")), F("Children", MsgT("NamedChild"), Rep()),
+		// fields named like the synthetic fields of a map entry, next to maps of the same element type
+		F("Key"), F("Value"), F("ZoneLabels", MapOf()), F("ZoneCounts", Sc(ir.Int64), MapOf()), F("value_count", Sc(ir.Int64)),
 	)
-	child := M("NamedChild", F("InnerPlain"), F("inner_snake"), F("tier1_name"), F("v_x"), F("InnerTagged", JSON("inner_tag")), F("InnerByPath"), F("InnerByKey"))
+	child := M("NamedChild", F("InnerPlain"), F("inner_snake"), F("tier1_name"), F("v_x"), F("key", Sc(ir.Int64)), F("value", Sc(ir.Int64)), F("weights", Sc(ir.Int64), MapOf()), F("InnerTagged", JSON("inner_tag")), F("InnerByPath"), F("InnerByKey"))
 	f := file("k8", m, child)
 	AutoComments(f)
 	c := BaseConfig("Naming")
